@@ -45,7 +45,7 @@ pub fn case(ctx: &Ctx, idx: u64) -> CaseOut {
         Profile::Forbid,
         Profile::Degenerate,
     ]);
-    let max_dep = if ctx.thorough() { *rng.pick(&[5, 10, 18]) } else { *rng.pick(&[3, 6, 10]) };
+    let max_dep = if ctx.thorough() { *rng.pick(&[5, 10, 18, 30]) } else { *rng.pick(&[3, 6, 10]) };
     let mut opts = GenOpts::new(profile, max_dep);
     opts.decoupled_depots = true;
     let tag = format!("f{}c{}", ctx.seed, idx);
@@ -54,6 +54,19 @@ pub fn case(ctx: &Ctx, idx: u64) -> CaseOut {
         // a structure where one more vehicle would save many dead-head trips at once
         input = gen::chain_network(&mut rng, &tag);
         out.count("shifted_chain_networks", 1);
+    }
+    if idx % 40 == 13 {
+        let ndep = rng.usize(20, 70);
+        let (ws, ld) = (rng.chance(1, 2), rng.chance(1, 3));
+        input = gen::line_network(&mut rng, &tag, ndep, ws, ld);
+        out.count("busy_line_networks", 1);
+    }
+    if idx % 2000 == 77 {
+        let ndep = rng.usize(260, 320);
+        let (ws, ld) = (false, false);
+        input = gen::line_network(&mut rng, &tag, ndep, ws, ld);
+        out.count("full_day_timetables", 1);
+        crate::orch::announce_cpu_budget(600.0);
     }
     let b = match Bridge::new(&input) {
         Ok(b) => b,
@@ -71,6 +84,9 @@ pub fn case(ctx: &Ctx, idx: u64) -> CaseOut {
         Err(p) => {
             out.viol("C06", &p.sig(), format!("MinCostFlowSolver::solve panicked: {} at {}", p.message, p.location));
             out.inconclusive.push(format!("MinCostFlowSolver::solve panicked ({})", p.sig()));
+            if let Ok(dir) = std::env::var("VERIF_DEBUG_PANIC_DIR") {
+                let _ = std::fs::write(format!("{}/{}.json", dir, tag), serde_json::to_vec(&input).unwrap());
+            }
             out.witness = Some(json!({ "input": input }));
             return out;
         }
